@@ -3,6 +3,7 @@ package main
 // Translation of contract expressions to SMT terms.
 
 import (
+	"os"
 	"regexp"
 	"fmt"
 	"go/token"
@@ -1080,6 +1081,9 @@ func (t *trans) baseApp(sd *specDef, fp []string, plain []string, x *cCall, ret 
 			baseArgs = append(baseArgs, now)
 		}
 	}
+	if os.Getenv("GRITSVC_DEBUG_BASE") != "" {
+		fmt.Fprintf(os.Stderr, "baseApp %s changed=%v objs=%d base-keys=%d\n", sd.Name, changed, len(objs), len(t.cur.base))
+	}
 	if !changed {
 		return "", false
 	}
@@ -1092,7 +1096,7 @@ func (t *trans) baseApp(sd *specDef, fp []string, plain []string, x *cCall, ret 
 		case "Ref":
 			for _, o := range objs {
 				if o.escaped {
-					if c.typeReaches(pt.gt, o.typ) {
+					if c.typeReaches(pt.gt, o.typ, o.backing) {
 						return "", false
 					}
 					continue
@@ -1104,7 +1108,7 @@ func (t *trans) baseApp(sd *specDef, fp []string, plain []string, x *cCall, ret 
 		case "Slice":
 			for _, o := range objs {
 				if o.escaped {
-					if c.typeReaches(pt.gt, o.typ) {
+					if c.typeReaches(pt.gt, o.typ, o.backing) {
 						return "", false
 					}
 					continue
@@ -1222,11 +1226,11 @@ func (c *smtctx) mayPointInto(argT, objT types.Type) bool {
 // X is a by-value component of objT; a slice can only point into an array, i.e. into a backing store whose element
 // type is its own). Interfaces from outside the module, function values and unsafe pointers count as reaching
 // everything.
-func (c *smtctx) typeReaches(argT, objT types.Type) bool {
+func (c *smtctx) typeReaches(argT, objT types.Type, backing bool) bool {
 	if argT == nil || objT == nil {
 		return true
 	}
-	key := types.TypeString(argT, nil) + " => " + types.TypeString(objT, nil)
+	key := types.TypeString(argT, nil) + " => " + types.TypeString(objT, nil) + fmt.Sprint(backing)
 	if c.w.reachCache == nil {
 		c.w.reachCache = map[string]bool{}
 	}
@@ -1300,7 +1304,7 @@ func (c *smtctx) typeReaches(argT, objT types.Type) bool {
 			}
 		case *types.Slice:
 			ek := types.TypeString(u.Elem(), nil)
-			if ek == objKey || arrays[ek] {
+			if (backing && ek == objKey) || arrays[ek] {
 				reaches = true
 				return
 			}
@@ -1321,6 +1325,9 @@ func (c *smtctx) typeReaches(argT, objT types.Type) bool {
 		}
 	}
 	walk(argT)
+	if os.Getenv("GRITSVC_DEBUG_REACH") != "" {
+		fmt.Fprintf(os.Stderr, "typeReaches %s = %v\n", key, reaches)
+	}
 	c.w.reachCache[key] = reaches
 	return reaches
 }
